@@ -294,13 +294,14 @@ def _copy(m: BufferMachine, op, vals, core):
 @handler(linalg.GenericOp)
 def _generic(m: BufferMachine, op, vals, core):
     ins = [m.get(vals, v) for v in op.inputs if isinstance(v.type, MemRefType)]
+    scalars = [m.get(vals, v) for v in op.inputs if not isinstance(v.type, MemRefType)]
     outs = [m.get(vals, v) for v in op.outputs]
     if not m.mine(op, core):
         return
     tag = tag_of(op)
     desc = f"linalg.generic#{tag}"
     core.hist.append(("op", tag))
-    read = []
+    read = [("scalar", x) for x in scalars]
     for v in ins:
         idxs = list(v.indices())
         for ch in m.chunks(idxs):
